@@ -383,8 +383,16 @@ func (e *Engine) step(p *partition, row map[string]any, ts, seq int64) []map[str
 
 	// 1. 推进现有 run（含未界完成：mr 不属于但 run 已可接受）。
 	for _, r := range p.runs {
-		if !e.withinOk(r, ts) || r.nrows > e.maxRunRows {
-			continue // 超期/超长：丢弃
+		if !e.withinOk(r, ts) {
+			// this event lies beyond WITHIN: the run ends here. As it stands it fits
+			// (its last row was within), so an accepting run is a match for its start.
+			if hasAccept(r.states) {
+				completions = append(completions, r)
+			}
+			continue
+		}
+		if r.nrows > e.maxRunRows {
+			continue // 超长：丢弃
 		}
 		succ := e.advance(r, row)
 		if len(succ) == 0 {
